@@ -59,7 +59,14 @@ def run_cppcheck_dump(src, extra=(), timeout=300):
     if os.path.exists(dump):
         os.remove(dump)
     cmd = [vlib.CPPCHECK, "--dump", "-q", "--inline-suppr"] + list(extra) + [src]
-    rc, out, _ = vlib.sh(cmd, timeout=timeout, cwd=os.path.dirname(src))
+    for attempt in range(6):
+        rc, out, _ = vlib.sh(cmd, timeout=timeout, cwd=os.path.dirname(src))
+        # another check is relinking the binary / recopying cfg/ right now: not a property of the input
+        if not (rc in (126, 127) or "installation is broken" in out or "Permission denied" in out or "Text file busy" in out):
+            break
+        time.sleep(10)
+    else:
+        raise vlib.BuildError("cppcheck binary unusable (concurrent rebuild?): rc=%s %s" % (rc, out[-300:]))
     return rc, out, dump if os.path.exists(dump) else None
 
 
@@ -225,7 +232,7 @@ def check(run, replay):
         run.violation("gate:" + hashlib.sha1(p.encode()).hexdigest()[:8], "AST writer gate: " + p,
                       {"broken": "gate", "detail": p}, found_input=False)
 
-    ok = run.prove()
+    ok = run.prove(extra_targets=["theories/Dump/Run.vo"])
     have_model = ok or os.path.exists(os.path.join(vlib.COQ, "theories/Dump/Run.vo"))
     if not ok:
         run.violation("proof:" + PID, "Properties_C14.vo does not build: " + str(run.proof_error())[:300],
